@@ -25,6 +25,23 @@ type Parser struct {
 	// operands collected since the last operator (per parser, so that
 	// operands of one parse can never leak into another)
 	operands []core.Object
+
+	// arrays and dictionaries currently open (see maxNestingDepth)
+	depth int
+}
+
+// maxNestingDepth bounds how deeply arrays and dictionaries may nest. They are parsed
+// recursively, so without a limit a content stream of a few megabytes of '[' exhausts the
+// goroutine stack, which aborts the process instead of returning an error.
+const maxNestingDepth = 1000
+
+// enterNested accounts for one more open array or dictionary.
+func (p *Parser) enterNested() error {
+	if p.depth >= maxNestingDepth {
+		return fmt.Errorf("arrays and dictionaries nested deeper than %d", maxNestingDepth)
+	}
+	p.depth++
+	return nil
 }
 
 // NewParser creates a new content stream parser for the given data.
@@ -153,12 +170,22 @@ func (p *Parser) parseOperand() (core.Object, error) {
 
 	// Array
 	if c == '[' {
-		return p.parseArray()
+		if err := p.enterNested(); err != nil {
+			return nil, err
+		}
+		obj, err := p.parseArray()
+		p.depth--
+		return obj, err
 	}
 
 	// Dictionary (rare in content streams, but possible)
 	if c == '<' && p.pos+1 < len(p.data) && p.data[p.pos+1] == '<' {
-		return p.parseDict()
+		if err := p.enterNested(); err != nil {
+			return nil, err
+		}
+		obj, err := p.parseDict()
+		p.depth--
+		return obj, err
 	}
 
 	// Boolean or null
